@@ -10,14 +10,16 @@ use dashu_base::{
 use dashu_int::{IBig, UBig, Word};
 
 use crate::{
-    error::{assert_finite, panic_unlimited_precision},
+    error::{assert_finite, panic_exponent_overflow, panic_unlimited_precision},
     fbig::FBig,
     repr::{Context, Repr},
     round::{
         mode::{HalfAway, HalfEven, Zero},
         Round, Rounded, Rounding,
     },
-    utils::{digit_len, ilog_exact, shl_digits, shl_digits_in_place, shr_digits, split_digits},
+    utils::{
+        common_root, digit_len, ilog_exact, shl_digits, shl_digits_in_place, shr_digits, split_digits,
+    },
 };
 
 impl<R: Round> Context<R> {
@@ -557,6 +559,19 @@ impl<R: Round> Context<R> {
                 let adjust = R::round_ratio(&hi, rem, &scale);
                 Inexact(Repr::new(hi + adjust, exponent), adjust)
             }
+        } else if let Some((root, a, b)) = common_root(B, NewB) {
+            // B = root^a and NewB = root^b (neither a power of the other, e.g. 4 -> 8, 9 -> 27): the number is
+            // significand * root^(a * exponent), and with a * exponent = b * q + t (0 <= t < b) it is
+            // (significand * root^t) * NewB^q exactly. The logarithms below are not needed, and their result
+            // is not correctly rounded when the number is representable in the target precision (as it often is here).
+            let total = repr.exponent as i128 * a as i128;
+            let (q, t) = (total.div_euclid(b as i128), total.rem_euclid(b as i128));
+            let exponent: isize = match q.try_into() {
+                Ok(e) => e,
+                Err(_) => panic_exponent_overflow(),
+            };
+            let signif = repr.significand * root.pow(t as u32);
+            self.repr_round(Repr::new(signif, exponent))
         } else {
             // if the exponent is large, then we first estimate the result exponent as floor(exponent * log(B) / log(NewB)),
             // then the fractional part is multiplied with the original significand
